@@ -23,25 +23,26 @@ func init() { register("C04", c04); register("C13", c13) }
 const c04ver = 2
 
 type recGen struct {
-	name       string
-	filter     map[int]bool
-	filterL    []int
-	namers     []string
-	namersNil  bool
-	fileType   string
-	fileName   string
-	vars       []string
-	consts     []string
-	initOut    string
-	initErr    bool
-	typeOut    string
-	typeErr    int // -1: none
-	finOut     string
-	finErr     bool
-	imports    []string
-	silent     bool
+	name         string
+	filter       map[int]bool
+	filterL      []int
+	namers       []string
+	namersNil    bool
+	fileType     string
+	fileName     string
+	vars         []string
+	consts       []string
+	initOut      string
+	initErr      bool
+	typeOut      string
+	typeErr      int // -1: none
+	finOut       string
+	finErr       bool
+	imports      []string
+	silent       bool
 	initViaMerge bool // (v2) Init fails through a merged snippet writer; for the model: an Init error
-	log        *[]string
+	log          *[]string
+	own          namer.NameSystems // what the Namers hook returned
 }
 
 func tid(t *types.Type) int { n, _ := strconv.Atoi(t.Name.Name); return n }
@@ -52,10 +53,17 @@ func ids(ts []*types.Type) string {
 	}
 	return list(it...)
 }
-func nsKeys(ns namer.NameSystems) string {
+
+// nsKeys: the visible naming systems by name, each marked with whose it is -- the generator's own (the very
+// object its Namers hook returned) or the context's
+func nsKeys(ns namer.NameSystems, own namer.NameSystems) string {
 	var ks []string
-	for k := range ns {
-		ks = append(ks, k)
+	for k, v := range ns {
+		if o, ok := own[k]; ok && o == v {
+			ks = append(ks, k+"=own")
+		} else {
+			ks = append(ks, k+"=ctx")
+		}
 	}
 	sort.Strings(ks)
 	return atoms(ks)
@@ -94,18 +102,19 @@ func (g *recGen) Namers(c *generator.Context) namer.NameSystems {
 	for _, n := range g.namers {
 		ns[n] = namer.NewRawNamer("", nil)
 	}
+	g.own = ns
 	return ns
 }
 func (g *recGen) PackageVars(c *generator.Context) []string {
-	*g.log = append(*g.log, tag("vars", atom(g.name), nsKeys(c.Namers)))
+	*g.log = append(*g.log, tag("vars", atom(g.name), nsKeys(c.Namers, g.own)))
 	return g.vars
 }
 func (g *recGen) PackageConsts(c *generator.Context) []string {
-	*g.log = append(*g.log, tag("consts", atom(g.name), nsKeys(c.Namers)))
+	*g.log = append(*g.log, tag("consts", atom(g.name), nsKeys(c.Namers, g.own)))
 	return g.consts
 }
 func (g *recGen) Init(c *generator.Context, w io.Writer) error {
-	*g.log = append(*g.log, tag("init", atom(g.name), nsKeys(c.Namers), ids(c.Order)))
+	*g.log = append(*g.log, tag("init", atom(g.name), nsKeys(c.Namers, g.own), ids(c.Order)))
 	if g.initViaMerge {
 		// the text goes through a snippet writer into which a failed side writer was merged: the
 		// generator returns what the writer reports at the end, as documented
@@ -213,7 +222,9 @@ func (ft recFileType) AssembleFile(f *generator.File, path string) error {
 	}
 	return nil
 }
-func (ft recFileType) VerifyFile(f *generator.File, path string) error { return ft.AssembleFile(f, path) }
+func (ft recFileType) VerifyFile(f *generator.File, path string) error {
+	return ft.AssembleFile(f, path)
+}
 
 var (
 	reHook     = regexp.MustCompile(`HOOK:([^:\s]+):(\d)`)
@@ -509,7 +520,9 @@ func (w *faultyWriter) Write(p []byte) (int, error) {
 // the same writer, also offering WriteString (as *os.File, *bufio.Writer and *bytes.Buffer do)
 type faultyStringWriter struct{ *faultyWriter }
 
-func (w faultyStringWriter) WriteString(s string) (int, error) { return w.faultyWriter.Write([]byte(s)) }
+func (w faultyStringWriter) WriteString(s string) (int, error) {
+	return w.faultyWriter.Write([]byte(s))
+}
 
 func fwErrS(err error) string {
 	if err == nil {
